@@ -38,6 +38,17 @@ theorem prune_loops_fact :
        "cs.startDeleteHeight = minHeight"] := by
   refine ⟨rfl, rfl, rfl, rfl, rfl, rfl⟩
 
+/-- saveStatus: the records of the next height are written before the status that names it -/
+theorem savestatus_order_fact :
+    Gen.C13Facts.saveStatusCalls = ["saveValidatorsInfo", "saveConsensusParamsInfo", "SetSync(statusKey)", "saveLastTenStatus"] := by decide
+
+/-- whatever write of the status save a crash cuts, a status that survived finds the records of its next height -/
+theorem status_never_ahead_of_records (k : Nat) : statusAdvanced k = true → nextRecords k = true := by
+  simp only [statusAdvanced, nextRecords, applied, Bool.and_eq_true, decide_eq_true_eq]
+  omega
+
+example : statusAdvanced 4 = true ∧ statusAdvanced 3 = false ∧ nextRecords 3 = true := by decide
+
 /-! ## Part 1: pruning keeps the retention window readable -/
 
 /-- invariant of the record structure: pointers are monotone, point at or below their height, and point at full records;
